@@ -90,6 +90,8 @@ type Exec struct {
 	callOrd map[string]int
 	curHeap *Heap
 	undefLocals map[string]Term
+	privAllocs map[*ssa.Alloc]bool
+	privRefs   []string
 }
 
 func (vc *VC) newExec(fn *ssa.Function, pfx string, depth int) *Exec {
@@ -186,7 +188,62 @@ func (e *Exec) refInv(s string, h *Heap) string {
 		return "true"
 	}
 	e.u().clockVar()
-	return app("<", app("root", s), h.get("clock"))
+	inv := app("<", app("root", s), h.get("clock"))
+	// objects allocated by this function whose address never escapes cannot be what a callee
+	// returns or what is loaded from the heap
+	for _, pr := range e.privRefs {
+		inv = and(inv, not(eq(app("root", s), pr)))
+	}
+	return inv
+}
+
+// privateAllocs: allocations whose address is only ever used to access the object itself.
+func privateAllocs(fn *ssa.Function) map[*ssa.Alloc]bool {
+	res := map[*ssa.Alloc]bool{}
+	var onlyAccess func(v ssa.Value, depth int) bool
+	onlyAccess = func(v ssa.Value, depth int) bool {
+		if depth > 5 {
+			return false
+		}
+		refs := v.Referrers()
+		if refs == nil {
+			return false
+		}
+		for _, r := range *refs {
+			switch x := r.(type) {
+			case *ssa.FieldAddr:
+				if x.X != v || !onlyAccess(x, depth+1) {
+					return false
+				}
+			case *ssa.IndexAddr:
+				if x.X != v || !onlyAccess(x, depth+1) {
+					return false
+				}
+			case *ssa.UnOp:
+				if x.Op != token.MUL {
+					return false
+				}
+			case *ssa.Store:
+				if x.Addr != v {
+					return false // stored as a value: escapes
+				}
+			case *ssa.DebugRef:
+			default:
+				return false
+			}
+		}
+		return true
+	}
+	for _, b := range fn.Blocks {
+		for _, ins := range b.Instrs {
+			if a, ok := ins.(*ssa.Alloc); ok {
+				if _, isS := a.Type().(*types.Pointer).Elem().Underlying().(*types.Struct); isS && onlyAccess(a, 0) {
+					res[a] = true
+				}
+			}
+		}
+	}
+	return res
 }
 
 // allocRef takes a fresh reference from the allocation clock.
@@ -511,6 +568,9 @@ func (e *Exec) run(args []Term, heap *Heap, reach string) (ret Term, hout *Heap,
 		}
 	}
 	e.findLoops()
+	if e.top {
+		e.privAllocs = privateAllocs(fn)
+	}
 	if len(e.loops) > 0 && !e.top {
 		e.vc.unsupportedf("inlined function %s has a loop", fn.String())
 	}
@@ -864,6 +924,9 @@ func (e *Exec) instr(b *ssa.BasicBlock, ins ssa.Instruction, reach string, h *He
 		switch ut := et.Underlying().(type) {
 		case *types.Struct:
 			r, h2 := e.allocRef(h, x.Name()+"_new")
+			if e.top && e.privAllocs[x] {
+				e.privRefs = append(e.privRefs, r)
+			}
 			h2 = e.zeroStructAt(r, et, h2)
 			vc.def(eq(app("dyntype", r), fmt.Sprint(u.typeID(x.Type()))))
 			e.vals[x] = mk(r, SInt, x.Type())
